@@ -719,3 +719,40 @@ def terminals_stored_as_read(ctx, rule):
                         'masks, it does not touch digits / keyboard walks / other terminals (an upper-case walk is a different terminal)', None, x, firm=True)
     if ctx.floor(rule, 'lib_guesser/grammar_io.py', n, 3, 'terminal loader functions') and ok:
         ctx.ok(rule, 'lib_guesser/grammar_io.py', 'no case mapping of loaded values in the terminal loaders')
+
+
+def ruleset_info_keys(ctx, rule, floor=4):
+    """ruleset_info is the dictionary load_grammar fills (rule name, versions, encoding, uuid) and every other part of the guesser
+    reads: a key that is read must be a key that is written.  A `.get(key, default)` under a name nobody writes never fails - the
+    default always wins (seed C14-fa: load_grammar records 'all_lower', _save_session writes rule_info.skip_case from
+    ruleset_info.get('skip_case', False): every save file of an --all_lower session says skip_case = False and the resumed session
+    runs with the full capitalisation masks from a position computed for the all-lower grammar)."""
+    written = set()
+    reads = []
+    for rel, m in sorted(ctx.repo.modules.items()):
+        if not (rel.startswith(('lib_guesser/', 'lib_princeling/')) or rel in ENTRY_SCRIPTS):
+            continue
+        for lname, fn in m.funcs.items():
+            for x in walk_local(fn):
+                if isinstance(x, ast.Assign):
+                    for t in x.targets:
+                        if isinstance(t, ast.Subscript) and U(t.value).endswith('ruleset_info') and isinstance(const(t.slice), str):
+                            written.add(const(t.slice))
+                        if U(t).endswith('ruleset_info') and isinstance(x.value, ast.Dict):
+                            written.update(const(k) for k in x.value.keys if k is not None and isinstance(const(k), str))
+                if isinstance(x, ast.Subscript) and isinstance(x.ctx, ast.Load) and U(x.value).endswith('ruleset_info') \
+                        and isinstance(const(x.slice), str):
+                    reads.append((rel + '::' + lname, const(x.slice), x))
+                elif isinstance(x, ast.Call) and isinstance(x.func, ast.Attribute) and x.func.attr == 'get' and U(x.func.value).endswith('ruleset_info') \
+                        and x.args and isinstance(const(x.args[0]), str):
+                    reads.append((rel + '::' + lname, const(x.args[0]), x))
+    ok = True
+    for q, k, node in reads:
+        ctx.stats['functions'].add(q)
+        if k not in written:
+            ok = False
+            ctx.bad(rule, q, "ruleset_info key '%s' is read (%s) and never written" % (k, U(node)[:50]),
+                    'what the loader recorded reaches its readers only under the key it was recorded under; read under another name, a '
+                    'subscript fails and a .get() silently yields its default', {'written': sorted(written)}, node, firm=True)
+    if ctx.floor(rule, 'lib_guesser/grammar_io.py', len(reads), floor, 'reads of ruleset_info by constant key') and ok:
+        ctx.ok(rule, 'lib_guesser/grammar_io.py', 'the %d reads of ruleset_info use keys the loader writes (%s)' % (len(reads), sorted(written)))
